@@ -376,6 +376,22 @@ impl Litep2p {
                 .register_transport(SupportedTransport::Tcp, crate::verif::adapt(transport));
         }
 
+        // install the second scripted transport in place of WebSocket (verification seam)
+        #[cfg(all(litep2p_verif, feature = "websocket"))]
+        if let Some(factory) = litep2p_config.verif_transport_ws.take() {
+            let handle = transport_manager.transport_handle(Arc::clone(&litep2p_config.executor));
+            let (transport, transport_listen_addresses) =
+                factory(crate::verif::TransportHandle::new(handle));
+
+            for address in transport_listen_addresses {
+                transport_manager.register_listen_address(address.clone());
+                listen_addresses.push(address.with(Protocol::P2p(local_peer_id.into())));
+            }
+
+            transport_manager
+                .register_transport(SupportedTransport::WebSocket, crate::verif::adapt(transport));
+        }
+
         // enable quic transport if the config exists
         #[cfg(feature = "quic")]
         if let Some(config) = litep2p_config.quic.take() {
@@ -487,6 +503,11 @@ impl Litep2p {
             .verif_transport
             .is_some()
             .then(|| supported_transports.insert(SupportedTransport::Tcp));
+        #[cfg(all(litep2p_verif, feature = "websocket"))]
+        config
+            .verif_transport_ws
+            .is_some()
+            .then(|| supported_transports.insert(SupportedTransport::WebSocket));
         #[cfg(feature = "quic")]
         config
             .quic
